@@ -153,6 +153,8 @@ func run() error {
 			if err != nil {
 				return err
 			}
+			asm, _ := filepath.Glob(filepath.Join(dir, "*.s"))
+			files = append(files, asm...)
 			for _, f := range files {
 				replace[filepath.Join(*repo, "internal", pkg, filepath.Base(f))] = f
 			}
@@ -161,6 +163,8 @@ func run() error {
 		// the harness still imports vsched (inactive): provide it
 		dir := filepath.Join(*verif, "shim", "vsched")
 		files, _ := filepath.Glob(filepath.Join(dir, "*.go"))
+		asm, _ := filepath.Glob(filepath.Join(dir, "*.s"))
+		files = append(files, asm...)
 		for _, f := range files {
 			replace[filepath.Join(*repo, "internal", "vsched", filepath.Base(f))] = f
 		}
@@ -332,8 +336,11 @@ func guardGoStmts(f *ast.File) bool {
 		if !ok {
 			return true
 		}
+		enter := func() ast.Stmt {
+			return &ast.ExprStmt{X: &ast.CallExpr{Fun: &ast.SelectorExpr{X: ast.NewIdent("vverifsched"), Sel: ast.NewIdent("EnterGo")}}}
+		}
 		if lit, ok := g.Call.Fun.(*ast.FuncLit); ok {
-			lit.Body.List = append([]ast.Stmt{deferStmt()}, lit.Body.List...)
+			lit.Body.List = append([]ast.Stmt{enter(), deferStmt()}, lit.Body.List...)
 			changed = true
 			return true
 		}
@@ -341,7 +348,7 @@ func guardGoStmts(f *ast.File) bool {
 			inner := g.Call
 			g.Call = &ast.CallExpr{Fun: &ast.FuncLit{
 				Type: &ast.FuncType{Params: &ast.FieldList{}},
-				Body: &ast.BlockStmt{List: []ast.Stmt{deferStmt(), &ast.ExprStmt{X: inner}}},
+				Body: &ast.BlockStmt{List: []ast.Stmt{&ast.ExprStmt{X: &ast.CallExpr{Fun: &ast.SelectorExpr{X: ast.NewIdent("vverifsched"), Sel: ast.NewIdent("EnterGo")}}}, deferStmt(), &ast.ExprStmt{X: inner}}},
 			}}
 			changed = true
 		}
